@@ -642,7 +642,7 @@ def stress(state, workload, n_clusters, yield_p, until):
 
 
 # ---------------------------------------------------------------------------------------------- (b) systematic schedules
-SCHED_SHAPES = ["mutual2", "mutual3", "self", "tailcycle", "nested", "mutual2list", "unionrec", "convreg", "convlazy", "recconv", "fieldconv", "lazyrec", "validated", "mdvalidated",
+SCHED_SHAPES = ["mutual2", "mutual3", "self", "tailcycle", "nested", "mutual2list", "unionrec", "convreg", "convlazy", "recconv", "fieldconv", "lazyrec", "validated", "mdvalidated", "flattened",
                 "selftree", "gentree", "plain", "generic"]
 OP_PAIRS = [("deserialize", "deserialize"), ("serialize", "serialize"), ("deserialize", "serialize"), ("dschema", "deserialize"), ("sschema", "serialize"),
             ("dschema", "dschema"), ("serialize_conv", "serialize_conv"), ("serialize_any", "serialize_any")]
